@@ -74,7 +74,7 @@ theorem layoutSt_label {sty : Style} {c : Circ} {st : St} (h : layoutSt v sty c 
 /-! ## validity of a circuit (the quantifier of the property) and the gap class -/
 
 /-- a circuit element of the property's domain: in-range, pairwise distinct qubits; a
-measurement of one qubit into an existing classical bit -/
+measurement of one qubit into an existing classical bit, or without `classical_store` -/
 def opValid (N C : Nat) : Op → Bool
   | .meas [t0] s => decide (t0 < N) && decide (s < C)
   | .meas _ _ => false
@@ -82,6 +82,8 @@ def opValid (N C : Nat) : Op → Bool
     !targets.isEmpty && (targets ++ ctrlList controls).all (fun q => decide (q < N)) &&
       decide ((targets ++ ctrlList controls).Nodup)
   | .glob _ _ => true
+  | .measNS [t0] => decide (t0 < N)
+  | .measNS _ => false
 
 def circValid (sty : Style) (c : Circ) : Bool := styleOk sty c.N c.C && c.ops.all (opValid c.N c.C)
 
